@@ -338,12 +338,74 @@ def cmdAllot (fields : List String) : Except String String :=
       .ok ("ok\t" ++ " ".intercalate ((allotParts amount qs).map toString))
   | _ => .error "allot: expected 2 fields"
 
+
+/-! ## static analysis commands -/
+
+def showRange (r : Range) : String := s!"{r.s.line}:{r.s.char}-{r.e.line}:{r.e.char}"
+
+def diagPayload : DiagKind → List String
+  | .parsing m => [m]
+  | .invalidType n => [n]
+  | .duplicateVariable n => [n]
+  | .unboundVariable n => [n]
+  | .unusedVar n => [n]
+  | .typeMismatch e g => [e, g]
+  | .badAllotmentSum q => [renderRat q]
+  | .fixedPortionVariable q => [renderRat q]
+  | .unknownFunction n => [n]
+  | .badArity e a => [toString e, toString a]
+  | .emptiedAccount n => [n]
+  | _ => []
+
+def showDiag (d : Diag) : String :=
+  " ".intercalate ([d.kind.name, toString d.kind.severity, showRange d.range] ++ (diagPayload d.kind).map encStr)
+
+def parsePosTok (s : String) : Except String Pos := parsePos s
+
+def cmdAnalyze (fields : List String) : Except String String :=
+  match fields with
+  | [ast, perrs, positions] => do
+      let prog ← toProgram (← parseSexp ast)
+      let pd ← (pairs (words perrs)).mapM (fun p => do
+        .ok (Diag.mk (← parseRange p.1) (.parsing (← decStr p.2))))
+      let poss ← (words positions).mapM parsePosTok
+      match checkProgram pd prog with
+      | .panic s => .ok s!"panic\t{encStr s}"
+      | .err e => .ok s!"err\t{showErr e}"
+      | .ok st =>
+          let diags := ";".intercalate (st.diags.map showDiag)
+          let syms := match getSymbols st with
+            | .ok l => "ok " ++ ";".intercalate (l.map (fun (x : String × String × Range) => s!"{encStr x.1} {encStr x.2.1} {showRange x.2.2}"))
+            | .panic s => "panic " ++ encStr s
+            | .err _ => "err"
+          let hovers := poss.map (fun pos =>
+            let h := match hoverOn prog pos with
+              | .ok none => "none"
+              | .ok (some (.variable r n)) => s!"var {showRange r} {encStr n}"
+              | .ok (some (.builtinFn r fn)) => s!"fn {showRange r} {encStr fn.name}"
+              | .panic s => "panic " ++ encStr s
+              | .err _ => "err"
+            let g := match gotoDefinition prog st pos with
+              | .ok none => "none"
+              | .ok (some r) => showRange r
+              | .panic s => "panic " ++ encStr s
+              | .err _ => "err"
+            let l := match lspHover prog st pos with
+              | .ok none => "none"
+              | .ok (some (t, r)) => s!"{encStr t} {showRange r}"
+              | .panic s => "panic " ++ encStr s
+              | .err _ => "err"
+            s!"{h}|{g}|{l}")
+          .ok s!"ok\t{diags}\t{syms}\t{";".intercalate hovers}\t{errorCount st.diags}"
+  | _ => .error "analyze: expected 3 fields"
+
 def dispatch (cmd : String) (fields : List String) : Except String String :=
   if cmd = "exec" then cmdExec fields
   else if cmd = "reconcile" then cmdReconcile fields
   else if cmd = "parsevar" then cmdParseVar fields
   else if cmd = "portionlit" then cmdPortionLit fields
   else if cmd = "allot" then cmdAllot fields
+  else if cmd = "analyze" then cmdAnalyze fields
   else .error s!"unknown command {cmd}"
 
 def handleLine (line : String) : String :=
